@@ -958,7 +958,7 @@ def gen_inline_ast(rng: random.Random, depth: int = 0) -> List[Any]:
                 label.append(['t', rng.choice('BI'), [['c', 'em']]])
                 label.append(['c', ' tail'])
             tgt = rng.choice(['mod.name', 'f', 'pkg.Cls.meth']) if letter == 'L' else rng.choice(['http://x.y/z', 'www.python.org'])
-            out.append(['l', letter, label, tgt])
+            out.append(['l', letter, label, tgt, rng.choice(['', '', ' ', '   '])])
     # a literal-brace group must not follow an upper-case letter (it would be read as a tag)
     fixed: List[Any] = []
     for it in out:
@@ -983,7 +983,7 @@ def inline_print(items: List[Any]) -> str:
         elif k == 's':
             out += 'S{' + it[1] + '}'
         else:
-            out += it[1] + '{' + inline_print(it[2]) + '<' + it[3] + '>}'
+            out += it[1] + '{' + inline_print(it[2]) + (it[4] if len(it) > 4 else '') + '<' + it[3] + '>}'
     return out
 
 
@@ -1041,4 +1041,80 @@ DOC_CORPUS: List[Dict[str, Any]] = [
                      ['para', _w('outer', 'item', 'one', 'ends')]],
                     [['para', _w('outer', 'item', 'two')]]]],
                 ['para', _w('Closing', 'words.')]]},
+]
+
+
+# ------------------------------------------------------------------------------------------------ reST field lists
+RST_CONS = ['Parameters', 'Arguments', 'Exceptions', 'Variables', 'IVariables', 'CVariables', 'Groups', 'Types', 'Keywords',
+            'PARAMETERS', 'parameters']
+RST_PLAIN = ['param x', 'type x', 'returns', 'rtype', 'raises ValueError', 'note', 'ivar v', 'custom', 'custom with arg',
+             'Parameters  spaced', 'see']
+
+
+def gen_rst_item_body(rng: random.Random, ind: str) -> List[str]:
+    """further blocks of a list item / definition, at indentation `ind`"""
+    out: List[str] = []
+    for _ in range(rng.choice([0, 0, 1, 2])):
+        out.append('')
+        k = rng.random()
+        if k < 0.4:
+            out.append(ind + ' '.join(gen_words(rng, rng.randint(1, 5), SAFE_WORDS)))
+        elif k < 0.7:
+            for _ in range(rng.randint(1, 2)):
+                out.append(ind + '- ' + ' '.join(gen_words(rng, rng.randint(1, 3), SAFE_WORDS)))
+        elif k < 0.85:
+            out.append(ind + 'code::')
+            out.append('')
+            out.append(ind + '    x = 1')
+        else:
+            out.append(ind + '>>> 1')
+            out.append(ind + '1')
+    return out
+
+
+def gen_rst_fieldlist(rng: random.Random) -> str:
+    lines: List[str] = [' '.join(gen_words(rng, 3, SAFE_WORDS)), '']
+    for _ in range(rng.randint(1, 4)):
+        if rng.random() < 0.3:
+            lines.append(':%s: %s' % (rng.choice(RST_PLAIN), ' '.join(gen_words(rng, rng.randint(1, 4), SAFE_WORDS))))
+            lines += gen_rst_item_body(rng, '    ')
+            continue
+        lines.append(':%s:' % rng.choice(RST_CONS))
+        form = rng.random()
+        n = rng.randint(1, 3)
+        if form < 0.5:          # bullet list, items mostly well formed
+            for k in range(n):
+                name = rng.choice(['x', 'y', 'value', 'a.b', 'né'])
+                head = rng.choice(['`%s`: ', '`%s`: ', '`%s` - ', '`%s`:', '`%s` :', '`%s`-  ', '`%s` ', '`%s`', '%s: ', '*%s*: ',
+                                   '`%s` `z`: '])
+                words = ' '.join(gen_words(rng, rng.randint(0, 4), SAFE_WORDS))
+                lines.append('    - ' + (head % name) + words)
+                if rng.random() < 0.3:
+                    lines.append('      ' + ' '.join(gen_words(rng, 2, SAFE_WORDS)))
+                lines += gen_rst_item_body(rng, '      ')
+        elif form < 0.8:        # definition list
+            for k in range(n):
+                name = rng.choice(['x', 'y', 'value'])
+                term = rng.choice(['%s', '%s : int', '`%s`', '`%s` : list of str', '%s : int : extra', '%s *em*', '**%s**'])
+                lines.append('    ' + (term % name))
+                lines.append('        ' + ' '.join(gen_words(rng, rng.randint(1, 4), SAFE_WORDS)))
+                lines += gen_rst_item_body(rng, '        ')
+        elif form < 0.88:
+            lines.append('    ' + ' '.join(gen_words(rng, 3, SAFE_WORDS)))
+        elif form < 0.94:
+            lines.append('    1. `x`: enumerated')
+        else:
+            lines.append('    - `x`: one')
+            lines.append('')
+            lines.append('    para after the list')
+    return '\n'.join(lines) + '\n'
+
+
+RST_FIELD_CORPUS = [
+    ":Parameters:\n    - `a`: desc a\n      more\n\n      second para\n\n      - nested\n    - `b` - desc b\n    - `c`\n",
+    ":Keywords:\n    k : int\n        desc k\n\n        para two\n    `j`\n        desc j\n",
+    ":Exceptions:\n    - ValueError: no ticks\n:Exceptions:\n    not a list\n:Exceptions:\n    also not\n",
+    ":IVariables:\n    x : int\n        d\n    y : a : b\n        e\n", ":custom tag arg: t\n", ":Types:\n    x\n        deflist not allowed\n",
+    ":PARAMETERS:\n  1. `a`: x\n", ":Parameters:\n    - `a`:desc\n    - `b` :desc\n    - `c`-  desc\n    - `d`desc\n    - `e` : : x\n",
+    ":Parameters:\n    - `a`: x\n\n    - \n", ":param: no arg\n", ":Parameters: - `x`: inline start\n",
 ]
